@@ -62,23 +62,25 @@ theorem sent_only_after_stored (evs : List Event) (e : Event) :
   have := (jinv_step (run init evs) e (jinv_run evs)).2
   simpa [specStored] using this
 
-/-- **every height up to H once all heights up to H above the initial head have been inserted**, in
+/-- (`_partial`: holds under the environment contract `AdmRun`, see the file header; without it — e.g. a
+    range inserted into the store behind the tracker's back — nothing can be promised.)
+    **every height up to H once all heights up to H above the initial head have been inserted**, in
     the property's own quantifier form: for every `H`, if every height in `(head, H]` is stored then
     `H ≤ last_sent_height` — whatever the insertion order and the re-initialisations -/
-theorem complete_forall (evs : List Event) (ha : AdmRun init evs) (h0 L : Nat)
+theorem complete_forall_partial (evs : List Event) (ha : AdmRun init evs) (h0 L : Nat)
     (hh : (run init evs).firstHead = some h0) (hL : (run init evs).lastSent = some L) (H : Nat)
     (hall : ∀ h, h0 < h → h ≤ H → h ∈ (run init evs).stored) : H ≤ L :=
   complete_of_inv (inv1_run_adm evs init inv1_init ha) (inv3_run evs init inv3_init ha) L h0 hL hh H hall
 
 /-- the same as the decidable checker -/
-theorem complete (evs : List Event) (ha : AdmRun init evs) (h0 : Nat)
+theorem complete_partial (evs : List Event) (ha : AdmRun init evs) (h0 : Nat)
     (hh : (run init evs).firstHead = some h0) :
     specComplete h0 (run init evs).stored (run init evs).sentLog = true := by
   have h1 := inv1_run_adm evs init inv1_init ha
   rcases h1 with ⟨_, b, _, _⟩ | ⟨L, h0', a, b, c⟩
   · rw [b] at hh; cases hh
   · rw [b] at hh; cases hh
-    have hle := complete_forall evs ha h0 L b a (reach (run init evs).stored h0 (run init evs).stored.length)
+    have hle := complete_forall_partial evs ha h0 L b a (reach (run init evs).stored h0 (run init evs).stored.length)
       (fun h h1 h2 => reach_spec _ _ _ h h1 h2)
     have := c.le
     simp only [specComplete, c.log, List.length_range', decide_eq_true_eq]
@@ -86,7 +88,7 @@ theorem complete (evs : List Event) (ha : AdmRun init evs) (h0 : Nat)
 
 /-- under the admissible environment neither the `debug_assert!` nor any `expect` of
     `announce_insert` fires -/
-theorem never_panics (evs : List Event) (e : Event) (ha : AdmRun init (evs ++ [e])) :
+theorem never_panics_partial (evs : List Event) (e : Event) (ha : AdmRun init (evs ++ [e])) :
     (step (run init evs) e).2.panic = false := by
   obtain ⟨h1, h2⟩ := admRun_append evs init e ha
   exact (inv3_step _ e (inv3_run evs init inv3_init h1) h2).2
